@@ -282,9 +282,21 @@ func runOnce(prog Program, rep int) (err error, readPurge bool) {
 						ks, e = ag.List()
 						if e == nil {
 							successfulRead.Store("x", true)
+							shown := map[string]bool{}
 							for _, k := range ks {
+								shown[string(k.Blob)] = true
 								if !universe[string(k.Blob)] {
 									viol.set(vh.Errf("%s: listing contains an identity nobody added (%d bytes)", where, len(k.Blob)))
+								}
+							}
+							// read your own writes: nobody else touches this goroutine's keys, so its listing shows
+							// exactly what its own completed additions and removals left of them
+							if exact {
+								for kidx, present := range finals[g].keyPresent {
+									blob := string(vh.SSHPub(ownKeys[(2*g+kidx)%len(ownKeys)]).Marshal())
+									if shown[blob] != present {
+										viol.set(vh.Errf("%s: the listing shows this goroutine's own key %d as present=%v, but its own completed operations left it present=%v (a listing from before its own last operation?)", where, kidx, shown[blob], present))
+									}
 								}
 							}
 						} else if exact {
